@@ -166,13 +166,16 @@ fn compile_and_extract_entry(
 
     let mut program = Program::new();
     let mut module_cache = ModuleCache::new();
+    // The program is given nil as its parameter. (`types::NIL` is the nil *tuple*; as a type id it
+    // would name whatever type the compiler registers first - never, which fits any parameter.)
+    let nil_type_id = program.register_type(Type::nil());
     let compilation_result = Compiler::compile(
         ast,
         &HashMap::new(),
         &mut module_cache,
         resolver,
         &mut program,
-        quiver_core::types::NIL, // parameter_type_id - use pre-registered nil type
+        nil_type_id, // parameter_type_id
         &HashMap::new(),
         builtins,
         None, // no semantic recorder for the CLI
@@ -184,7 +187,6 @@ fn compile_and_extract_entry(
 
     // Register the callable type for this wrapper function
     // Use the receive type extracted from the program (allows top-level code to receive messages)
-    let nil_type_id = program.register_type(Type::nil());
     let callable_type_id = program.register_type(Type::Callable {
         parameter: nil_type_id,
         result: compilation_result.result_type,
@@ -254,13 +256,14 @@ fn compile_command(
             };
             let mut program = Program::new();
             let mut module_cache = ModuleCache::new();
+            let nil_type_id = program.register_type(Type::nil());
             Compiler::compile(
                 ast,
                 &HashMap::new(),
                 &mut module_cache,
                 &resolver,
                 &mut program,
-                quiver_core::types::NIL, // parameter_type_id
+                nil_type_id, // parameter_type_id
                 &HashMap::new(),
                 &builtins,
                 None, // no semantic recorder for the CLI
